@@ -31,19 +31,74 @@ def generate(repo, g):
              'jedi/api/refactoring/extract.py:_VARIABLE_EXCTRACTABLE (beyond EXPRESSION_PARTS)')
     g.define('definitionScopes', 'List String', lean_list(list(ext.const('_DEFINITION_SCOPES'))),
              'jedi/api/refactoring/extract.py:_DEFINITION_SCOPES')
-    # inline: the parenthesisation condition
+    # inline: the parenthesisation condition.  Two shapes are accepted: the original one and the one with
+    # proposed_fixes/c06-1-inline-parenthesize-slots.diff (+ c06-2-inline-attribute-reference-slot.diff);
+    # every disjunct must be one of the forms the Lean model `jediParens` knows.
     fn = ref.find('inline')
     conds = [n for n in ast.walk(fn) if isinstance(n, ast.If) and len(n.body) == 1
              and u(n.body[0]) == "s = '(' + replace_code + ')'"]
     if len(conds) != 1:
         raise TieBroken('refactoring/__init__.py: inline has %d parenthesisation branches' % len(conds))
-    want = ("rhs.type == 'testlist_star_expr' or tree_name.parent.type in EXPRESSION_PARTS or "
-            "(tree_name.parent.type == 'trailer' and tree_name.parent.get_next_sibling() is not None)")
-    got = u(conds[0].test)
-    if got != want:
+    test = conds[0].test
+    got = u(test)
+    disjuncts = test.values if isinstance(test, ast.BoolOp) and isinstance(test.op, ast.Or) else [test]
+    var = 'replaced' if 'replaced.' in got else 'tree_name'
+    seen = set()
+    extra, dstar = [], False
+    for d in disjuncts:
+        t = u(d)
+        if t == "rhs.type == 'testlist_star_expr'":
+            seen.add('testlist')
+        elif t == '%s.parent.type in EXPRESSION_PARTS' % var:
+            seen.add('parts')
+        elif t == "%s.parent.type == 'trailer' and %s.parent.get_next_sibling() is not None" % (var, var):
+            seen.add('trailer')
+        elif t == "%s.parent.type == 'dictorsetmaker' and %s.get_previous_sibling() == '**'" % (var, var):
+            dstar = True
+        elif isinstance(d, ast.Compare) and len(d.ops) == 1 and isinstance(d.ops[0], ast.In) \
+                and u(d.left) == '%s.parent.type' % var and isinstance(d.comparators[0], ast.Name):
+            extra += _split_call_words(ref.assign_value(d.comparators[0].id), ref.rel, d.comparators[0].id)
+        else:
+            raise TieBroken('refactoring/__init__.py: inline parenthesisation condition has an unknown disjunct', t)
+    if seen != {'testlist', 'parts', 'trailer'}:
         raise TieBroken('refactoring/__init__.py: inline parenthesisation condition changed', got)
+    attr_slot = False
+    if var == 'replaced':
+        # `replaced` must be: the name, or for a final `.name` trailer the whole `obj.name`
+        loop = [n for n in ast.walk(fn) if isinstance(n, ast.For) and conds[0] in n.body]
+        if len(loop) != 1:
+            raise TieBroken('refactoring/__init__.py: inline: the parenthesisation branch is not in the reference loop')
+        body = loop[0].body
+        k = body.index(conds[0])
+        want2 = ["replaced = tree_name",
+                 "if replaced.parent.type == 'trailer' and replaced.parent.children[0] == '.' and "
+                 "(replaced.parent.get_next_sibling() is None):\n    replaced = replaced.parent.parent"]
+        if k < 2 or [u(x) for x in body[k - 2:k]] != want2:
+            raise TieBroken('refactoring/__init__.py: inline: `replaced` is not computed as expected',
+                            repr([u(x) for x in body[max(0, k - 2):k]]))
+        attr_slot = True
     g.define('inlineParensCondition', 'String', lean_str(got),
              'jedi/api/refactoring/__init__.py:inline')
+    g.define('inlineParensExtraParents', 'List String', lean_list(extra),
+             'jedi/api/refactoring/__init__.py:inline, `X.parent.type in <list>` disjuncts beyond EXPRESSION_PARTS')
+    g.define('inlineParensDictDoubleStar', 'Bool', lean_bool(dstar),
+             "jedi/api/refactoring/__init__.py:inline, disjunct `parent.type == 'dictorsetmaker' and previous sibling == '**'`")
+    g.define('inlineParensAttributeSlot', 'Bool', lean_bool(attr_slot),
+             'jedi/api/refactoring/__init__.py:inline, the slot inspected for a final `.name` trailer is that of `obj.name`')
+    # _replace: the text in front of the replaced expression
+    rp = ext.find('_replace')
+    ifs = [n for n in ast.walk(rp) if isinstance(n, ast.If) and u(n.test) == 'remaining_prefix is None'
+           and len(n.body) == 1 and isinstance(n.body[0], ast.Assign) and u(n.body[0].targets[0]) == 'p']
+    if len(ifs) != 1 or [u(x) for x in ifs[0].orelse] != ['p = remaining_prefix + _get_indentation(nodes[0])']:
+        raise TieBroken('extract.py: _replace no longer computes the prefix of the replaced node as '
+                        '`first_node_leaf.prefix` / `remaining_prefix + indentation`',
+                        ' | '.join(u(n) for n in ast.walk(rp) if isinstance(n, ast.Assign) and u(n.targets[0]) == 'p'))
+    g.define('replaceNodePrefix', 'String', lean_str(u(ifs[0].body[0].value)),
+             'jedi/api/refactoring/extract.py:_replace, `p = ...` when remaining_prefix is None')
+    uses = [u(n) for n in ast.walk(rp) if isinstance(n, ast.Assign) and 'replacement_dct[nodes[0]]' in u(n.targets[0])]
+    if sorted(uses) != sorted(['replacement_dct[nodes[0]] = extracted_prefix + expression_replacement',
+                               'replacement_dct[nodes[0]] = p + expression_replacement']):
+        raise TieBroken('extract.py: _replace assigns the replaced node differently', ' | '.join(uses))
     # inline: the refusal messages in source order (precondition chain)
     msgs = []
     for n in ast.walk(fn):
